@@ -125,16 +125,21 @@ def gen_value(rng, depth, opts):
     elif k == "clob":
         body = ("clob", gen_bytes(rng))
     else:
-        body = ("blob", gen_bytes(rng))
+        # base64 text that contains "//" (a comment opener anywhere else), "+/" and padding of each length
+        body = ("blob", rng.choice(BLOB_EDGES) if rng.random() < 0.25 else gen_bytes(rng))
     return (annots, body)
+
+
+BLOB_EDGES = [b"\xff\xff\xff", b"\xff\xd8\xff\xff", b"\xff\xff\xff\xff\xff\xff\xff", b"\xfb\xff\xbf", b"\xff\xff", b"\xff", b"\x03\xff\xff\xf0"]
 
 
 def gen_forest(rng, opts=None):
     opts = opts or {}
     n = rng.choice([1, 1, 2, 3, rng.randint(0, 6)])
     vs = [gen_value(rng, rng.choice([0, 1, 2, 3, opts.get("depth", 4)]), opts) for _ in range(n)]
-    # a top-level struct whose first annotation is $ion_symbol_table IS a symbol table, not a user value
-    return [(a[1:] if a and a[0] == b"$ion_symbol_table" and b[0] == "struct" else a, b) for a, b in vs]
+    # a top-level struct whose first annotation is $ion_symbol_table IS a symbol table, not a user value; so is
+    # $ion_symbol_table::null.struct (both readers consume it as a table reset: C10, and `not_lst_null` in Props/C01bin.v)
+    return [(a[1:] if a and a[0] == b"$ion_symbol_table" and (b[0] == "struct" or b == ("null", TSTRUCT)) else a, b) for a, b in vs]
 
 
 # ---------------------------------------------------------------------------
